@@ -323,8 +323,14 @@ func (e *evaluator) eval(w *reclib.WorkerCtx, idx int) Result {
 					}
 					if !covered {
 						d := sh.defect()
+						if d == "" && sh.durField == 0 {
+							d = "duration-not-written" // complete parts only, stopped before the segment was closed
+						}
 						if d == "" {
 							d = "neighbour-of-" + worst
+							if worst == "no-defect" {
+								d = "neighbour-of-duration-not-written"
+							}
 						}
 						// a class of its own: the span that begins early enough ends exactly where the LAST
 						// part on disk of an incomplete segment ends (its last complete part, or the
@@ -332,8 +338,8 @@ func (e *evaluator) eval(w *reclib.WorkerCtx, idx int) Result {
 						// complete part holds media that ends later (tracks with skewed timestamps)
 						failure := "complete-parts-not-covered"
 						for _, o := range shapes {
-							if o.header != "ok" || o.complete == 0 || o.defect() == "" {
-								continue
+							if o.header != "ok" || o.complete == 0 || o.durField != 0 {
+								continue // only a segment without a written duration is measured from its parts
 							}
 							full := completeEnd(o.seg, o.complete)
 							for _, pi := range []int{o.complete - 1, o.complete} {
